@@ -199,7 +199,12 @@ def main():
         else:
             a = a[1:]
     t0 = time.time()
-    cur, pin = load(repo), load(pinned)
+    try:
+        cur, pin = load(repo), load(pinned)
+    except Exception as e:
+        # a source file of the current tree is outside the parser's subset: nothing can be compared
+        json.dump(dict(results=[], error=f"cannot read the sources: {e!r}"[:300], seconds=0), sys.stdout)
+        return
     results = []
     for cname in ("rand_xoshiro", "rand_xorshift"):
         for unit in SEED_LENS:
